@@ -136,6 +136,25 @@ def stale_stream_id(t, k):
     return any(x[0] == q["lid"] and (x[1] != ev["r"] or x[2] != "X") for x in conn["reg"])
 
 
+def reprepare_other_connection(t, k):
+    """Does event t[k] queue an _execute_after_prepare task that names another connection than the one the PREPARE of
+    that request was registered on?  (findings/C09_reprepare_returns_the_wrong_connection.py)"""
+    if k == 0 or "post" not in t[k] or "post" not in t[k - 1]:
+        return False
+    pre, post = t[k - 1]["post"], t[k]["post"]
+    before = [(x["s"], x["n"]) for x in pre["exec"] if x["k"] == "AfterPrep"]
+    for x in post["exec"]:
+        if x["k"] != "AfterPrep" or (x["s"], x["n"]) in before:
+            continue
+        on = [i for i, c in enumerate(pre["conns"], 1) if any(y[1] == x["n"] and y[2] == "P" for y in c["reg"])]
+        if on and x["s"] not in on:
+            return True
+    return False
+
+
+REPREP_SIG = "system:C09:AfterPrep-names-other-connection"
+
+
 def run_system(ctx, pid=None):
     from harness.replay import driver as dr
     t_start = time.time()
@@ -226,7 +245,8 @@ def run_system(ctx, pid=None):
         rejected.append((i, t, min(progress[i], len(t)) - 1))
     # where did the real driver leave the specification?  (at most 60 rejected runs are localised)
     loc = {}
-    todo = [(i, t, k) for i, t, k in rejected if t[k]["e"] != "Anomaly" and not stale_stream_id(t, k)][:60]
+    todo = [(i, t, k) for i, t, k in rejected if t[k]["e"] != "Anomaly" and not stale_stream_id(t, k)
+            and not reprepare_other_connection(t, k)][:60]
     if todo:
         parts = localise(ctx, tconsts, [(t, k) for _, t, k in todo], pool)
         loc = {i: p for (i, _, _), p in zip(todo, parts)}
@@ -237,6 +257,8 @@ def run_system(ctx, pid=None):
         parts = loc.get(i, [])
         if stale_stream_id(t, k):
             own, sig = "C09", STALE_SIG
+        elif reprepare_other_connection(t, k):
+            own, sig = "C09", REPREP_SIG
         elif len(parts) == 1:
             own = owner_of_part(parts[0], ev, phase_before)
             sig = "system:%s:%s/%s" % (own, event_label(ev), parts[0])
